@@ -423,7 +423,7 @@ impl From<SPDC> for SignalConfig {
         SIG_FIGS_IN_CONFIG,
       )),
       theta_external_deg: None,
-      phi_deg: sigfigs(*(spdc.signal.phi() / DEG), SIG_FIGS_IN_CONFIG),
+      phi_deg: sigfigs(*(spdc.signal.phi() / DEG), SIG_FIGS_IN_CONFIG).rem_euclid(360.),
       waist_um: sigfigs(*(spdc.signal.waist().x / (MICRO * M)), SIG_FIGS_IN_CONFIG),
       waist_position_um: AutoCalcParam::Param(sigfigs(
         *(spdc.signal_waist_position / (MICRO * M)),
@@ -445,7 +445,7 @@ impl From<SPDC> for IdlerConfig {
         SIG_FIGS_IN_CONFIG,
       )),
       theta_external_deg: None,
-      phi_deg: sigfigs(*(spdc.idler.phi() / DEG), SIG_FIGS_IN_CONFIG),
+      phi_deg: sigfigs(*(spdc.idler.phi() / DEG), SIG_FIGS_IN_CONFIG).rem_euclid(360.),
       waist_um: sigfigs(*(spdc.idler.waist().x / (MICRO * M)), SIG_FIGS_IN_CONFIG),
       waist_position_um: AutoCalcParam::Param(sigfigs(
         *(spdc.idler_waist_position / (MICRO * M)),
@@ -478,7 +478,7 @@ impl From<SPDC> for SPDCConfig {
         SIG_FIGS_IN_CONFIG,
       )),
       theta_external_deg: None,
-      phi_deg: sigfigs(*(spdc.signal.phi() / DEG), SIG_FIGS_IN_CONFIG),
+      phi_deg: sigfigs(*(spdc.signal.phi() / DEG), SIG_FIGS_IN_CONFIG).rem_euclid(360.),
       waist_um: sigfigs(*(spdc.signal.waist().x / (MICRO * M)), SIG_FIGS_IN_CONFIG),
       waist_position_um: AutoCalcParam::Param(sigfigs(
         *(spdc.signal_waist_position / (MICRO * M)),
@@ -496,7 +496,7 @@ impl From<SPDC> for SPDCConfig {
         SIG_FIGS_IN_CONFIG,
       )),
       theta_external_deg: None,
-      phi_deg: sigfigs(*(spdc.idler.phi() / DEG), SIG_FIGS_IN_CONFIG),
+      phi_deg: sigfigs(*(spdc.idler.phi() / DEG), SIG_FIGS_IN_CONFIG).rem_euclid(360.),
       waist_um: sigfigs(*(spdc.idler.waist().x / (MICRO * M)), SIG_FIGS_IN_CONFIG),
       waist_position_um: AutoCalcParam::Param(sigfigs(
         *(spdc.idler_waist_position / (MICRO * M)),
